@@ -49,6 +49,10 @@ pub enum Strategy {
     /// stalls a thread right *before* one of its CASes (probability per 1000) for a random number of decisions, so
     /// that other threads complete whole operations between its load and its CAS (the window of ABA-shaped bugs)
     StallBeforeCas(u32),
+    /// One victim thread is put aside at arbitrary accesses (probability per 1000 at each of its accesses, any
+    /// kind) for `lo..hi` decisions, several times per run, while the others run whole operations; the shape of
+    /// "T is descheduled between two loads while three ordinary operations of other threads complete" (ABA).
+    Victim { v: u32, p: u32, lo: u32, hi: u32 },
 }
 
 impl Strategy {
@@ -59,6 +63,7 @@ impl Strategy {
             Strategy::Pct { .. } => "pct",
             Strategy::Targeted => "targeted",
             Strategy::StallBeforeCas(_) => "stall_before_cas",
+            Strategy::Victim { .. } => "victim_stall",
         }
     }
 }
@@ -150,6 +155,8 @@ pub struct MtState {
     pub words: [usize; 5],
     /// per thread: value-changing atomic accesses to allocator state (everything but the reference count)
     pub state_changes: Vec<u64>,
+    /// functions whose plain store overwrote a removal mark that another thread had set on a node word
+    pub mark_wiped: Vec<String>,
     pub torn_down: bool,
     pub teardowns: u64,
     pub shadow: Vec<ShadowRange>,
@@ -272,11 +279,17 @@ impl MtState {
             if (w >> 32) == 0 {
                 return match self.marks.get(&(next as usize)) {
                     Some((_, Some(true))) => "stale-unlink",
+                    // a mark whose owner lost its unlink CAS: the repaired defect F2 - unless a removal mark was wiped
+                    // by a blind store earlier in this run (a thread acts on a stale claim), which is the known family
+                    _ if !self.mark_wiped.is_empty() => "stale-unlink",
                     _ => "mark-not-undone",
                 };
             }
             next = w as u32;
             n += 1;
+        }
+        if !self.mark_wiped.is_empty() {
+            return "stale-unlink";
         }
         "spin-on-unlinked"
     }
@@ -319,6 +332,15 @@ impl MtState {
     }
 
     pub fn violation(&mut self, prop: &'static str, class: &'static str, detail: String) {
+        // Root-cause tag for safety violations: earlier in this run the blind store of the re-insertion path
+        // (update_next_node) overwrote a removal mark that another thread had set on that node word - the marking
+        // thread goes on with a claim that no longer exists. The class becomes `stale_claim`, the original class and
+        // tag stay in the detail. (An ABA alone does not qualify: it is also what new defects of this kind produce.)
+        let (class, detail) = if !self.mark_wiped.is_empty() && prop != "C07" && prop != "HARNESS" {
+            ("stale_claim", format!("[{} {}] after the plain store of {} wiped a removal mark set by another thread (ABA in: {}): {}", class, crate::exec::Violation { prop, class, detail: detail.clone(), op: 0 }.signature().rsplit('|').next().unwrap_or(""), self.mark_wiped.join(", "), self.aba.join(", "), detail))
+        } else {
+            (class, detail)
+        };
         if self.viols.len() < 8 {
             self.viols.push(Violation { prop, class, detail, op: self.steps as usize });
         }
@@ -355,7 +377,8 @@ impl MtState {
                     v
                 };
                 let tag = format!("{} {}", self.classify_stuck(), sig.join("+"));
-                let abad = if self.aba.is_empty() { String::new() } else { format!(" (earlier in this run a CAS in {} succeeded on a list word that other threads had changed and changed back since it was read: ABA)", self.aba.join(", ")) };
+                let wiped = if self.mark_wiped.is_empty() { String::new() } else { format!(" (a removal mark was wiped by the plain store of {})", self.mark_wiped.join(", ")) };
+                let abad = if self.aba.is_empty() { wiped } else { format!(" (earlier in this run a CAS in {} succeeded on a list word that other threads had changed and changed back since it was read: ABA){}", self.aba.join(", "), wiped) };
                 self.violation("C07", "nontermination", format!("[{}] all unfinished threads busy-wait on unchanged words: {}{}", tag, who.join("; "), abad));
                 self.set_abort("nontermination", "V1".into());
                 return me.unwrap_or(run[0]);
@@ -415,6 +438,20 @@ impl MtState {
                         others[self.rng.below(others.len() as u64) as usize]
                     }
                     Some(m) if !self.rng.chance(40, 1000) => m,
+                    _ => run[self.rng.below(run.len() as u64) as usize],
+                }
+            }
+            Strategy::Victim { v, p, lo, hi } => {
+                let (v, p, lo, hi) = (*v as usize, *p as u64, *lo as u64, *hi as u64);
+                self.at_cas = false;
+                match cur_ok {
+                    Some(m) if m == v && run.len() > 1 && self.rng.chance(p, 1000) => {
+                        self.stalled_until[m] = self.decisions + self.rng.range(lo, hi);
+                        let others: Vec<usize> = run.iter().cloned().filter(|x| *x != m).collect();
+                        others[self.rng.below(others.len() as u64) as usize]
+                    }
+                    // the others mostly run whole operations
+                    Some(m) if !self.rng.chance(15, 1000) => m,
                     _ => run[self.rng.below(run.len() as u64) as usize],
                 }
             }
@@ -634,6 +671,16 @@ pub fn after(t: usize, a: &Access) {
     };
     if a.success && matches!(a.kind, Kind::Cas) {
         s.switch_hint = true;
+    }
+    // ---- a plain store over a removal mark (the re-insertion path writes the node word blindly)
+    if a.width == 8 && matches!(a.kind, Kind::Store) && (a.old >> 32) == 0 && (a.operand >> 32) != 0 && a.addr >= s.base && a.addr < s.base + s.cap {
+        let off = a.addr - s.base;
+        if matches!(s.marks.get(&off), Some((mt, _)) if *mt != t) {
+            let f = crate::scen::linemap().func(a.line).to_string();
+            if !s.mark_wiped.contains(&f) {
+                s.mark_wiped.push(f);
+            }
+        }
     }
     // ---- ABA bookkeeping on 8-byte words (segment nodes and the sentinel)
     if a.width == 8 {
@@ -1312,6 +1359,7 @@ pub fn install(arena: &Arena, p: &MtParams, initial_shadow: Vec<ShadowRange>) {
         mbox,
         words,
         state_changes: vec![0; n],
+        mark_wiped: Vec::new(),
         torn_down: false,
         teardowns: 0,
         shadow: initial_shadow,
